@@ -126,6 +126,7 @@ class Scheduler:
         self._prio = {}
         self._change_points = set()
         self.line_events = 0
+        self.fine_yields_per_task = 400  # line-level pre-emptions per task; bounds the length of a fine-mode world
 
     # ------------------------------------------------------------------ tasks
     def _new_task(self, fn, name, parent=None, pool=None):
@@ -260,10 +261,13 @@ class Scheduler:
     def _make_tracer(self, task):
         sched = self
 
+        budget = [sched.fine_yields_per_task]
+
         def ltrace(frame, event, arg):
             if event == "line":
                 sched.line_events += 1
-                if sched._fine_rng.random() < sched.fine:
+                if budget[0] > 0 and sched._fine_rng.random() < sched.fine:
+                    budget[0] -= 1
                     sched.yield_point(("line", frame.f_code.co_name, frame.f_lineno))
             return ltrace
 
